@@ -8,6 +8,8 @@ mod fulfill;
 mod recursive;
 pub mod solve;
 
+#[cfg(chalk_verif)]
+pub use combine::verif as combine_verif;
 pub use fixed_point::Cache;
 #[cfg(chalk_verif)]
 pub use fixed_point::verif;
